@@ -111,7 +111,7 @@ def run(tier):
         behs = pick
         seeds_per = 1
     else:
-        seeds_per = 3
+        seeds_per = 1          # every enumerated behaviour once (about 200 000 real calls); quick re-seeds differ by VERIF_SEED
     jobs = []
     for b in behs:
         for s in range(seeds_per):
@@ -126,8 +126,7 @@ def run(tier):
         rank = list(range(K))
         rng.shuffle(rank)
         jobs.append((sizes, rank, m, rng.randrange(1 << 30)))
-    with mp.get_context("fork").Pool(common.NCPU) as pool:
-        recs = pool.map(build_and_run, jobs, chunksize=64)
+    recs = common.pmap_chunked(build_and_run, jobs, chunk=256)
     # DRIFT (informational): implementation sizes vs the HOW model's terminal sizes
     drift = 0
     for b, r in zip([b for b in behs for _ in range(seeds_per)], recs):
